@@ -71,6 +71,55 @@ func C04(c *fw.Ctx) {
 			}
 		}
 	}
+	// (a0) sequences of calls whose returns differ in form: a value, a bare return, falling off the end,
+	// a bare return from inside nested constructs, a bare return after an inner call returned a value,
+	// sibling closures one of which returns a value and the other nothing -- every sequence of up to three,
+	// as statements and as elements of one array literal
+	{
+		pool := []string{"rv", "rb", "rn", "rbl", "rvn", "rvv", "cadd", "cdrain"}
+		pre := func() []*model.N {
+			return []*model.N{
+				model.Fun("rv", nil, model.Return(model.Num(42))),
+				model.Fun("rb", nil, T("in-rb"), model.Return(nil), T("never")),
+				model.Fun("rn", nil, T("in-rn")),
+				model.Fun("rbl", nil, model.While(model.Bool(true), model.Block(model.If(model.Bool(true), model.Block(model.Return(nil)), nil))), T("never")),
+				model.Fun("rvn", nil, model.Var("t", model.CallN("rv")), model.Return(nil)),
+				model.Fun("rvv", nil, model.ExprS(model.CallN("rb")), model.Return(model.Str("s"))),
+				model.Fun("mkpair", nil, model.Var("n", model.Num(0)),
+					model.Fun("add", nil, model.ExprS(model.Asg("n", model.Bin("+", model.Id("n"), model.Num(7)))), model.Return(model.Id("n"))),
+					model.Fun("drain", nil, model.ExprS(model.Asg("n", model.Num(0))), model.Return(nil)),
+					model.Return(model.Arr(model.Id("add"), model.Id("drain")))),
+				model.Var("pair", model.CallN("mkpair")), model.Var("cadd", model.Idx(model.Id("pair"), model.Num(0))), model.Var("cdrain", model.Idx(model.Id("pair"), model.Num(1))),
+			}
+		}
+		for n := 1; n <= 3; n++ {
+			idx := make([]int, n)
+			for {
+				if c.Mine() {
+					prog := pre()
+					var el []*model.N
+					for _, i := range idx {
+						prog = append(prog, model.Print(model.CallN(pool[i])))
+						el = append(el, model.CallN(pool[i]))
+					}
+					run("return-forms|statements", prog)
+					run("return-forms|array", append(pre(), model.Print(model.Arr(el...))))
+				}
+				k := n - 1
+				for k >= 0 {
+					idx[k]++
+					if idx[k] < len(pool) {
+						break
+					}
+					idx[k] = 0
+					k--
+				}
+				if k < 0 {
+					break
+				}
+			}
+		}
+	}
 	// (a) return placement
 	var path []string
 	var rec func()
